@@ -1040,7 +1040,7 @@ def serde_case(universe, rnd, nops, malformed):
                 for _ in range(rnd.choice([1, 1, 1, 2, 3])):
                     k = rnd.random()
                     idx = rnd.randrange(0, 14) if k < 0.55 else (rnd.randrange(0, 40) if k < 0.9 else rnd.randrange(0, 110))
-                    muts += [idx, rnd.randrange(7), rnd.choice(MUT_PARAMS)]
+                    muts += [idx, rnd.choice([0, 1, 2, 3, 4, 5, 6, 7, 7, 8, 8]), rnd.choice(MUT_PARAMS)]
             g.emit(90, w, rnd.randrange(2), rnd.randrange(2), qi, len(QASTS[qi]), QASTS[qi], len(muts) // 3, muts)
     for w in (0, 1):
         for fmt in (0, 1):
@@ -1062,7 +1062,8 @@ SERDE_RULE = (WORLD_RULE + ". Serialisation operations on the worlds the history
               "with 9 query types, through a strict token-tree backend whose serializer records announced vs actual "
               "lengths and whose deserializer runs in self-describing and in length-driven mode; the token tree is "
               "compared with the model's; for C15 the tree is mutated (replace node by a number, drop/duplicate elements, "
-              "change announced lengths, swap elements, shift numbers, replace by an empty sequence; node chosen by "
+              "change announced lengths, swap elements, shift numbers, replace by an empty sequence, append one element more than "
+              "announced, give the second handle of a list the id of the first with the next generation; node chosen by "
               "pre-order index) before decoding and the outcome (error / resulting world) compared with the model. "
               "Supporting: serde_json and bincode round trips, truncated bincode input, decoded-vs-dropped component "
               "counts, consistency and continued usability of every accepted world")
@@ -1210,3 +1211,9 @@ def gen_reserve_stress(tier, seed, universe=None):
     """real-thread reservation runs (engine 70): threads, reservations per thread, free-list size"""
     for t, per, nfree in ([(4, 3000, 5), (8, 2000, 0), (3, 4000, 40)] if tier == "quick" else [(4, 20000, 5), (8, 20000, 0), (3, 20000, 40), (16, 5000, 3)]):
         yield [70, t, per, nfree]
+
+
+def gen_reserve_exhaust(tier, seed, universe=None):
+    """engine 71: (nlive, gap, k) with nlive <= gap: the cursor is parked gap ids before the end of the id space"""
+    for c in [(3, 5, 5), (0, 0, 2), (2, 2, 3), (1, 4, 6)]:
+        yield [71] + list(c)
